@@ -384,7 +384,7 @@ def instances(tier, seed):
             yield 'h_message', c
     # header so long that the state-init placement decides whether the cell overflows: all amounts 15 bytes, anycast depth sweeps
     # the header length across the boundary (header + Maybe/Either bits + init + body Either bit vs 1023)
-    for d in ((2, 3, 4, 5, 6) if tier == 'quick' else range(1, 11)):
+    for d in ((2, 3, 4, 5, 6) if tier == 'quick' else range(1, 9)):      # (depth 9 and more with three 15-byte amounts and a state-init: header + flag bits exceed 1023 bits, not representable)
         for init in (('empty', 'special_only') if tier == 'quick' else ('empty', 'special_only', 'depth_only', 'lib_only')):
             for body in (('empty',) if tier == 'quick' else ('empty', 'one', 'fit')):
                 yield 'h_message', dict(kind='int', src=f'any{d}', dest='std', gl=15, extra_n=0, fee_l=15, init=init, body=body, body_refs=0, fsel=d)
